@@ -1419,7 +1419,12 @@ class Interp:
                 return base.re
             if attr == 'imag':
                 return base.im
+            if attr == 'dtype':
+                return SObj('dtype', {'kind': 'c', 'name': 'complex'})
         if is_z3(base) or isinstance(base, (int, Fraction, float)):
+            if attr == 'dtype' and not isinstance(base, int) and not is_int_term(base):
+                # NumPy scalar taken out of a real array
+                return SObj('dtype', {'kind': 'f', 'name': 'real'})
             if attr == 'real':
                 return base
             if attr == 'imag':
